@@ -73,6 +73,8 @@ def m_with_raises(self, st, raises, k):
         if z3.is_true(c):
             return
         st.assume(z3.Not(c))
+        if not self.feasible(st, z3.BoolVal(True)):
+            return      # the operation always raises on this path
     k(st)
 
 
@@ -197,7 +199,7 @@ def m_x_Attribute(self, st, n, k):
             ref = VRef(T.Val.rval(base.z), cls)
             return self.with_raises(st, [(z3.Not(isobj), 'AttributeError')],
                                     lambda st: k(st, self.read_attr(st, ref, n.attr)))
-        if isinstance(base, (VList, VBytes, VStruct, VRx, VMatch, VHeapDict, VStr, VDyn, VInt, VKw, VSeqAbs, VConf)):
+        if isinstance(base, (VList, VBytes, VStruct, VRx, VMatch, VHeapDict, VStr, VDyn, VInt, VKw, VSeqAbs, VConf, VDictLit)):
             return k(st, VFunc('bound', base, n.attr))
         raise Untranslated('attribute .%s of %s' % (n.attr, base.kind))
     return self.ev(st, n.value, got)
@@ -209,6 +211,24 @@ def m_class_name_of(self, st, obj):
 
 
 def m_x_BoolOp(self, st, n, k):
+    # First try a non-forking evaluation: if no operand can raise or has effects and all are
+    # booleans, `a and b` / `a or b` is the z3 conjunction / disjunction.
+    trial = st.fork()
+    flag, results = [], []
+    n_obl = len(self.obligations)
+    heap0 = dict(st.heap)
+    trial.ctx = Ctx(lambda s, v: flag.append('ret'), lambda s, e: flag.append('raise'))
+    try:
+        self.ev_list(trial, list(n.values), lambda s, vs: results.append((s, vs)))
+    except Untranslated:
+        flag.append('untranslated')
+    if not flag and len(results) == 1 and len(self.obligations) == n_obl and \
+            all(isinstance(v, VBool) for v in results[0][1]) and \
+            all(results[0][0].heap[key] is heap0[key] for key in heap0) and len(results[0][0].pc) == len(st.pc):
+        vs = [v.z for v in results[0][1]]
+        return k(st, VBool(z3.And(vs) if isinstance(n.op, ast.And) else z3.Or(vs)))
+    del self.obligations[n_obl:]
+
     # python semantics: returns one of the operands; we only support use in boolean position
     # or with operands of one kind.
     def go(st, i, last):
@@ -335,6 +355,30 @@ def m_dictlit_get(self, st, d, idx, k):
         remaining.assume(z3.Not(c))
     remaining.path.append('keyerror')
     self.do_raise(remaining, VExc('KeyError'))
+
+
+def m_bm_dictlit_get(self, st, d, pos, kws, k):
+    idx = pos[0]
+    default = pos[1] if len(pos) > 1 else VNone()
+    remaining = st
+    for key, val in d.items:
+        kv = SpecEval(self, st, {}).ev_Constant(ast.Constant(key))
+        e = self.py_eq(st, idx, kv)
+        if e is None:
+            raise Untranslated('dict.get: key comparison')
+        c = zs(e)
+        if z3.is_false(c) or not self.feasible(remaining, c):
+            continue
+        s2 = remaining.fork('key=%r' % (key,))
+        s2.assume(c)
+        k(s2, val)
+        if z3.is_true(c):
+            return
+        remaining = remaining.fork()
+        remaining.assume(z3.Not(c))
+    if self.feasible(remaining, z3.BoolVal(True)):
+        remaining.path.append('default')
+        k(remaining, default)
 
 
 def m_x_Lambda(self, st, n, k):
@@ -535,7 +579,7 @@ def m_mod_footprint(self, st, c, env):
         if m.startswith('slot('):
             inner = m[5:-1]
             a, b = split_top(inner)
-            pkt = self.spec(st, a, env)
+            pkt = self.spec(st, a.strip(), env)
             if b.strip() == '*':
                 fp.setdefault('slots', []).append(('obj', pkt.z))
             elif b.strip().startswith('in:'):
@@ -543,7 +587,7 @@ def m_mod_footprint(self, st, c, env):
                 pred = b.strip()[3:]
                 fp.setdefault('slots', []).append(('pred', pkt.z, pred, env))
             else:
-                name = self.spec(st, b, env)
+                name = self.spec(st, b.strip(), env)
                 fp.setdefault('slots', []).append(('cell', pkt.z, name.z))
             continue
         if m.endswith('[*]'):
@@ -1835,18 +1879,18 @@ def m_verify_function(self, c):
     st.ctx = Ctx(on_return, on_raise)
     self.exec_block(st, body, lambda st2: on_return(st2, VNone()))
     # extensionality instances requested by bytes equalities
-    ext = [T.ext_instance(a, b) for a, b in self.ext_pairs]
-    for o in self.obligations:
-        if o.hyps or not z3.is_true(o.goal):
-            body = o.hyps + [o.goal]
-            syms = self.symbols_in(body)
-            if 'Bytes' in syms:
-                body = body + ext
-            ax, used = self.axioms_for(body)
-            o.n_axioms = len(ax)
-            o.axiom_sets = used
-            o.hyps = ax + (ext if 'Bytes' in syms else []) + o.hyps + self.mod_hyps(body)
+    self.ext = [T.ext_instance(a, b) for a, b in self.ext_pairs]
     return self.obligations
+
+
+def m_final_hyps(self, core_hyps, goals):
+    """axioms (selected by the symbols that occur), extensionality instances and div/mod hints
+    for a group of goals sharing the hypotheses core_hyps"""
+    body = list(core_hyps) + list(goals)
+    syms = self.symbols_in(body)
+    ext = self.ext if 'Bytes' in syms else []
+    ax, used = self.axioms_for(body + ext)
+    return ax + ext + list(core_hyps) + self.mod_hyps(body), used
 
 
 def m_apply_ghost(self, st, c, env, pre):
